@@ -53,18 +53,68 @@ Fixpoint build_map (l : list state) (i : positive) (m : wmap) : wmap :=
   | q :: r => build_map r (Pos.succ i) (PositiveMap.add i q m)
   end.
 
-Definition wfind (m : wmap) (i : nat) : option state := PositiveMap.find (Pos.of_succ_nat i) m.
+(* state indices are binary positives (1 = the initial state): unary nat indices would cost O(index) per lookup *)
+Definition wfind (m : wmap) (i : positive) : option state := PositiveMap.find i m.
 
-(* one row of the certificate: state i, its successor indices in atom order *)
-Definition row_ok (CL : list cset) (atoms : list atom) (m : wmap) (q : state) (succ : list nat) : bool :=
-  negb (accepting q) && classes_in CL (snd q) &&
-  Nat.eqb (length succ) (length atoms) &&
-  forallb (fun p => match wfind m (snd p) with
-                    | Some q' => state_eqb (step q (fst (fst p))) q'
-                    | None => false end)
-          (combine atoms succ).
+Fixpoint lbool_eqb (a b : list bool) : bool :=
+  match a, b with
+  | [], [] => true
+  | x :: a', y :: b' => Bool.eqb x y && lbool_eqb a' b'
+  | _, _ => false
+  end.
 
-Definition closed_cert (CL : list cset) (atoms : list atom) (W : list state) (tr : list (list nat)) : bool :=
+(* the classes the derivative of a term actually looks at (its "front"): the derivative depends on
+   the byte only through membership in these and through "is it a newline" *)
+Fixpoint front (pnl : bool) (k : nxt) (r : re) : list cset :=
+  match r with
+  | Cls s => [s]
+  | Cat a b => front pnl k a ++ (if nul pnl k a then front pnl k b else [])
+  | Alt a b => front pnl k a ++ front pnl k b
+  | Rep a _ mx _ => match mx with Some O => [] | _ => front pnl k a end
+  | _ => []
+  end.
+
+Fixpoint tfront (pnl : bool) (k : nxt) (t : top) : list cset :=
+  match t with
+  | TBase r => front pnl k r
+  | TAnd a b | TOr a b => tfront pnl k a ++ tfront pnl k b
+  | TNot a => tfront pnl k a
+  end.
+
+Definition csig (fr : list cset) (c : N) : list bool := (c =? 10) :: map (cmem c) fr.
+Definition qfront (q : state) (c : N) : list cset := tfront (fst q) (kind c) (snd q).
+
+Fixpoint assoc_sig (sg : list bool) (memo : list (list bool * positive)) : option positive :=
+  match memo with
+  | [] => None
+  | (s, i) :: r => if lbool_eqb s sg then Some i else assoc_sig sg r
+  end.
+
+(* one row of the certificate: state q, its successor indices in atom order.  The derivative is
+   computed once per distinct front signature; atoms with an already seen signature must claim the
+   same successor index *)
+Fixpoint row_chk (m : wmap) (q : state) (atoms : list atom) (succ : list positive)
+  (memo : list (list bool * positive)) : bool :=
+  match atoms, succ with
+  | [], [] => true
+  | a :: atoms', i :: succ' =>
+      let c := fst a in
+      let sg := csig (qfront q c) c in
+      match assoc_sig sg memo with
+      | Some j => Pos.eqb i j && row_chk m q atoms' succ' memo
+      | None =>
+          match wfind m i with
+          | Some q' => state_eqb (step q c) q' && row_chk m q atoms' succ' ((sg, i) :: memo)
+          | None => false
+          end
+      end
+  | _, _ => false
+  end.
+
+Definition row_ok (CL : list cset) (atoms : list atom) (m : wmap) (q : state) (succ : list positive) : bool :=
+  negb (accepting q) && classes_in CL (snd q) && row_chk m q atoms succ [].
+
+Definition closed_cert (CL : list cset) (atoms : list atom) (W : list state) (tr : list (list positive)) : bool :=
   let m := build_map W 1%positive (PositiveMap.empty state) in
   atoms_ok CL atoms && Nat.eqb (length W) (length tr) &&
   forallb (fun p => row_ok CL atoms m (fst p) (snd p)) (combine W tr).
@@ -72,7 +122,7 @@ Definition closed_cert (CL : list cset) (atoms : list atom) (W : list state) (tr
 (* ---- untrusted exploration: BFS with a search tree from state to index ---- *)
 (* red-black tree (Okasaki); untrusted, so no invariants are proved *)
 Inductive color := Red | Black.
-Inductive bst := Leaf | Node (c : color) (l : bst) (k : state) (v : nat) (r : bst).
+Inductive bst := Leaf | Node (c : color) (l : bst) (k : state) (v : positive) (r : bst).
 
 Definition st_cmp (a b : state) : comparison :=
   match fst a, fst b with
@@ -81,13 +131,13 @@ Definition st_cmp (a b : state) : comparison :=
   | _, _ => top_cmp (snd a) (snd b)
   end.
 
-Fixpoint bst_find (k : state) (t : bst) : option nat :=
+Fixpoint bst_find (k : state) (t : bst) : option positive :=
   match t with
   | Leaf => None
   | Node _ l k' v r => match st_cmp k k' with Eq => Some v | Lt => bst_find k l | Gt => bst_find k r end
   end.
 
-Definition balance (c : color) (l : bst) (k : state) (v : nat) (r : bst) : bst :=
+Definition balance (c : color) (l : bst) (k : state) (v : positive) (r : bst) : bst :=
   match c, l, r with
   | Black, Node Red (Node Red a xk xv b) yk yv c', d
   | Black, Node Red a xk xv (Node Red b yk yv c'), d =>
@@ -101,7 +151,7 @@ Definition balance (c : color) (l : bst) (k : state) (v : nat) (r : bst) : bst :
       end
   end.
 
-Fixpoint rb_ins (k : state) (v : nat) (t : bst) : bst :=
+Fixpoint rb_ins (k : state) (v : positive) (t : bst) : bst :=
   match t with
   | Leaf => Node Red Leaf k v Leaf
   | Node c l k' v' r =>
@@ -112,7 +162,7 @@ Fixpoint rb_ins (k : state) (v : nat) (t : bst) : bst :=
       end
   end.
 
-Definition bst_add (k : state) (v : nat) (t : bst) : bst :=
+Definition bst_add (k : state) (v : positive) (t : bst) : bst :=
   match rb_ins k v t with
   | Node _ l k' v' r => Node Black l k' v' r
   | Leaf => Leaf
@@ -120,25 +170,32 @@ Definition bst_add (k : state) (v : nat) (t : bst) : bst :=
 
 (* search state: tree, next index, queue of (state, reversed path) still to expand, and the
    expanded rows so far (reversed) *)
-Record xs := mkX { x_tree : bst; x_next : nat; x_queue : list (state * bytes);
-                   x_rows : list (state * list nat) }.
+Record xs := mkX { x_tree : bst; x_next : positive; x_queue : list (state * bytes);
+                   x_rows : list (state * list positive) }.
 
 Inductive xres :=
-| XClosed (W : list state) (tr : list (list nat))
+| XClosed (W : list state) (tr : list (list positive))
 | XWitness (s : bytes)        (* an accepted string *)
 | XFuel.
 
-(* expand one state over all atoms *)
-Fixpoint expand (atoms : list atom) (q : state) (path : bytes) (tree : bst) (next : nat)
-  (newq : list (state * bytes)) (succ : list nat) : bst * nat * list (state * bytes) * list nat :=
+(* expand one state over all atoms; the derivative is computed once per front signature *)
+Fixpoint expand (atoms : list atom) (q : state) (path : bytes) (tree : bst) (next : positive)
+  (newq : list (state * bytes)) (succ : list positive) (memo : list (list bool * positive))
+  : bst * positive * list (state * bytes) * list positive :=
   match atoms with
   | [] => (tree, next, rev newq, rev succ)
   | a :: rest =>
-      let q' := step q (fst a) in
-      match bst_find q' tree with
-      | Some i => expand rest q path tree next newq (i :: succ)
-      | None => expand rest q path (bst_add q' next tree) (S next)
-                       ((q', fst a :: path) :: newq) (next :: succ)
+      let c := fst a in
+      let sg := csig (qfront q c) c in
+      match assoc_sig sg memo with
+      | Some i => expand rest q path tree next newq (i :: succ) memo
+      | None =>
+          let q' := step q c in
+          match bst_find q' tree with
+          | Some i => expand rest q path tree next newq (i :: succ) ((sg, i) :: memo)
+          | None => expand rest q path (bst_add q' next tree) (Pos.succ next)
+                           ((q', c :: path) :: newq) (next :: succ) ((sg, next) :: memo)
+          end
       end
   end.
 
@@ -151,14 +208,14 @@ Fixpoint explore_loop (fuel : nat) (atoms : list atom) (x : xs) : xres :=
       | (q, path) :: rest =>
           if accepting q then XWitness (rev path)
           else
-            let '(tree, next, newq, succ) := expand atoms q path (x_tree x) (x_next x) [] [] in
+            let '(tree, next, newq, succ) := expand atoms q path (x_tree x) (x_next x) [] [] [] in
             explore_loop f atoms (mkX tree next (rest ++ newq) ((q, succ) :: x_rows x))
       end
   end.
 
 Definition explore (fuel : nat) (atoms : list atom) (t0 : top) : xres :=
   let q0 := (true, t0) in
-  explore_loop fuel atoms (mkX (bst_add q0 O Leaf) 1 [(q0, [])] []).
+  explore_loop fuel atoms (mkX (bst_add q0 1%positive Leaf) 2%positive [(q0, [])] []).
 
 (* the decision: true only if a closed certificate starting at t0 was found AND validated *)
 Definition decide_empty (CL : list cset) (atoms : list atom) (fuel : nat) (t0 : top) : bool :=
@@ -174,3 +231,22 @@ Definition witness (atoms : list atom) (fuel : nat) (t0 : top) : option bytes :=
 
 Definition nstates (atoms : list atom) (fuel : nat) (t0 : top) : nat :=
   match explore fuel atoms t0 with XClosed W _ => length W | _ => O end.
+
+(* ---- atoms computed from the classes of one problem (untrusted: [atoms_ok] validates them) ---- *)
+Definition sig_of (CL : list cset) (c : N) : list bool := (c =? 10) :: map (cmem c) CL.
+
+Fixpoint add_atom (c : N) (sg : list bool) (acc : list (list bool * atom)) : list (list bool * atom) :=
+  match acc with
+  | [] => [(sg, (c, [c]))]
+  | (s, (r, ms)) :: rest =>
+      if lbool_eqb s sg then (s, (r, c :: ms)) :: rest else (s, (r, ms)) :: add_atom c sg rest
+  end.
+
+Definition mk_atoms (CL : list cset) : list atom :=
+  map snd (fold_left (fun acc c => add_atom c (sig_of CL c) acc) all256 []).
+
+Fixpoint nodup_cs (l : list cset) (acc : list cset) : list cset :=
+  match l with
+  | [] => rev acc
+  | s :: r => if existsb (cset_eqb s) acc then nodup_cs r acc else nodup_cs r (s :: acc)
+  end.
